@@ -1490,10 +1490,18 @@ _ORD_SETS = {"is_lt": ("Less",), "is_le": ("Less", "Equal"), "is_gt": ("Greater"
 def s_ordering_is(kind):
     def h(I_, st, path, c, args, t, depth):
         out = []
-        for (s2, v) in I_.fork_variants(st, _target(I_, st, args[0]), "std::cmp::Ordering"):
-            if not (v[0] == "adt" and v[2] in ("Less", "Equal", "Greater")):
-                return None
-            out.append((s2, I(1 if v[2] in _ORD_SETS[kind] else 0)))
+        v0 = _target(I_, st, args[0])
+        if v0[0] == "adt" and v0[2] in ("Less", "Equal", "Greater"):
+            return [(st, I(1 if v0[2] in _ORD_SETS[kind] else 0))]
+        origin = _origin(v0)
+        decided = [c[2] for c in st.cond if c[0] == "variant" and c[1] == "Ordering" and c[3] == origin]
+        for name in ("Less", "Equal", "Greater"):
+            if decided and decided[0] != name:
+                continue
+            s2 = st.copy()
+            if not decided:
+                s2.cond = s2.cond + (("variant", "Ordering", name, origin),)
+            out.append((s2, I(1 if name in _ORD_SETS[kind] else 0)))
         return out
     return h
 
